@@ -219,7 +219,7 @@ func replayMigrate(c *core.Ctx, lfsBin string, b *behaviour, idx int) (*core.Vio
 			include := ""
 			args := []string{"lfs", "migrate", "import", "--fixup", "--everything", "--yes"}
 			if a != "fixup" {
-				include = PathFile(sel[0])
+				include = "/" + PathFile(sel[0]) // rooted: the selection is a path, not a base name
 				if len(sel) > 1 {
 					include = "*.bin"
 				}
@@ -350,6 +350,10 @@ func replayMigrate(c *core.Ctx, lfsBin string, b *behaviour, idx int) (*core.Vio
 func init() {
 	registry["C12"] = func(c *core.Ctx, replay string) {
 		pathDir["p2"] = "sub/" // p2 lives in a directory of its own (nested .gitattributes)
+		// ... under p1's file name and, where both hold ordinary content, with p1's bytes: the same
+		// (name, blob) entry at two places of the tree, told apart by nothing but the directory
+		pathBase["p2"] = "p1.bin"
+		rawTwin["p2"] = "p1"
 		if replayBehaviourOnly(c, replay, replayMigrate, "model_checking") {
 			return
 		}
